@@ -60,6 +60,14 @@ class Repartition(Expr):
             new_partitions = self.operand("new_partitions")
             if isinstance(new_partitions, Callable):
                 return new_partitions(self.frame.npartitions)
+            if (
+                new_partitions > self.frame.npartitions
+                and self.frame.known_divisions
+            ):
+                # boundaries interpolated between known divisions can coincide
+                # (few distinct integer or datetime labels): fewer partitions
+                # come out than were asked for
+                return super().npartitions
             return new_partitions
         return super().npartitions
 
